@@ -41,7 +41,7 @@ func c01Key(class string, n int, fs bool) string {
 	return fmt.Sprintf("obj-%d", n)
 }
 
-var c01MetaClasses = []string{"none", "ctype", "usermeta", "encoding-disposition", "big", "highbytes"}
+var c01MetaClasses = []string{"none", "ctype", "usermeta", "encoding-disposition", "big", "highbytes", "repeated"}
 
 func c01Meta(class string, n int) http.Header {
 	h := http.Header{}
@@ -61,6 +61,11 @@ func c01Meta(class string, n int) http.Header {
 		h.Set("x-amz-meta-latin", fmt.Sprintf("caf\xe9 %d", n))
 		h.Set("Content-Disposition", "attachment; filename=\"na\xefve.txt\"")
 		h.Set("x-amz-meta-utf8", "caf\u00e9 \u65e5\u672c")
+	case "repeated":
+		// the same header name on two lines
+		h.Add("x-amz-meta-rep", "one")
+		h.Add("x-amz-meta-rep", fmt.Sprintf("two %d", n))
+		h.Set("x-amz-meta-single", "s")
 	case "big":
 		for i := 0; i < 10; i++ {
 			h.Set(fmt.Sprintf("x-amz-meta-k%02d", i), strings.Repeat(string(rune('a'+i)), 100))
@@ -134,6 +139,23 @@ func c01CheckRead(r *rep.Reporter, kind, how, upload string, key string, exp c01
 	}
 	if exp.meta != nil && hdr != nil {
 		for k, v := range exp.meta {
+			if len(v) > 1 {
+				// a header sent as several lines is the comma-separated list of their values
+				// (RFC 9110 5.3); it may come back as lines or as one list
+				norm := func(vs []string) string {
+					var parts []string
+					for _, x := range vs {
+						for _, p := range strings.Split(x, ",") {
+							parts = append(parts, strings.TrimSpace(p))
+						}
+					}
+					return strings.Join(parts, ",")
+				}
+				if got := norm(hdr.Values(k)); got != norm(v) {
+					bad("metadata-mismatch", fmt.Sprintf("header %s = %q, sent as %d lines %q", k, hdr.Values(k), len(v), v))
+				}
+				continue
+			}
 			if got := hdr.Get(k); got != v[0] {
 				bad("metadata-mismatch", fmt.Sprintf("header %s = %q, sent %q", k, got, v[0]))
 			}
@@ -251,7 +273,7 @@ func runC01(c *Ctx) {
 			case "go-put":
 				m := map[string]string{}
 				for k, v := range meta {
-					m[k] = v[0]
+					m[k] = strings.Join(v, ",")
 				}
 				var perr error
 				var pv interface{}
@@ -391,7 +413,7 @@ func runC01(c *Ctx) {
 				} else {
 					m := map[string]string{}
 					for k, v := range meta2 {
-						m[k] = v[0]
+						m[k] = strings.Join(v, ",")
 					}
 					up2 = &drv.Resp{Status: 200}
 					if _, perr := s.Backend.PutObject(bucket, key, m, bytes.NewReader(body), int64(len(body))); perr != nil {
